@@ -2,6 +2,7 @@ package main
 
 import (
 	"encoding/binary"
+	"errors"
 	"fmt"
 	"os"
 	"time"
@@ -24,7 +25,30 @@ type request struct {
 	pending bool
 	flying  bool
 	dup     bool // dropped by the network: no nonce, or (name, nonce) already carried
+	// virtual-time bookkeeping (latency model): the consumer engine's timeout for this entry falls
+	// due at sentAt + lifetime + TimeoutMargin (engine/basic: timer.Schedule(lifetime+TimeoutMargin));
+	// the Data answering it cannot reach the consumer before sentAt + RTT
+	sentAt   time.Time
+	lifetime time.Duration
+	due      time.Time
+	unsent   bool // the face refused the packet (Express returned an error); the entry still times out
 }
+
+// Constants of std/engine/basic (engine.go): DefaultInterestLife and TimeoutMargin. Restated here
+// (the harness engine replaces engine/basic); only their order of magnitude matters to the oracle:
+// a lifetime + margin above rttMax never expires while a packet is in flight within the assumed RTT.
+const (
+	defaultInterestLife = 4 * time.Second
+	timeoutMargin       = 10 * time.Millisecond
+	// rttMax is the environment assumption of the latency model: a packet the network does not lose
+	// is answered within this round-trip time. A consumer that gives up on an Interest sooner than
+	// this has not suffered a loss.
+	rttMax = 300 * time.Millisecond
+)
+
+// errFaceDown is what the harness engine's face answers while it is down (engine/basic: the error
+// of face.Send, e.g. "face is not running").
+var errFaceDown = errors.New("harness: face is not running")
 
 // hEngine is the harness implementation of ndn.Engine. It never calls back on its own: Express
 // parks the Interest in the instance's network, AttachHandler records the handler.
@@ -34,6 +58,11 @@ type hEngine struct {
 	handler ndn.InterestHandler
 	prefix  enc.Name
 	nonce   uint64
+	// down: the consumer's face refuses to send (connection to the forwarder lost). Express then
+	// does exactly what engine/basic.Engine.Express does: the pending-Interest entry is created and
+	// its timeout scheduled BEFORE face.Send is attempted, the error of Send is returned to the
+	// caller, the entry stays and times out later.
+	down bool
 }
 
 type hTimer struct{ e *hEngine }
@@ -76,6 +105,11 @@ func (e *hEngine) Express(interest *ndn.EncodedInterest, cb ndn.ExpressCallbackF
 	n := interest.FinalName.Clone()
 	r := &request{name: n, nameS: n.String(), cbp: interest.Config.CanBePrefix,
 		wire: interest.Wire.Join(), cb: cb, pending: true, flying: true}
+	r.sentAt, r.lifetime = vtime.Now(), defaultInterestLife
+	if interest.Config.Lifetime != nil {
+		r.lifetime = *interest.Config.Lifetime
+	}
+	r.due = r.sentAt.Add(r.lifetime + timeoutMargin)
 	// The network behaves like a forwarder in one respect: it remembers (name, nonce) of every
 	// Interest it carried (for the whole history: lifetimes are short compared with a dead nonce
 	// list) and silently drops an Interest that repeats one or that carries no nonce. The Interest
@@ -94,6 +128,15 @@ func (e *hEngine) Express(interest *ndn.EncodedInterest, cb ndn.ExpressCallbackF
 		if !pi.CanBePrefix() {
 			e.in.bad("C15.newest", "metadata Interest on the wire does not carry CanBePrefix", fmt.Sprintf("Interest %s cannot match %s/<version>/<segment>", r.nameS, r.nameS))
 		}
+	}
+	if e.down {
+		// engine/basic order: PIT entry first, then face.Send fails, the error goes to the caller
+		r.flying, r.unsent = false, true
+		e.in.fatal[r.nameS]++
+		e.in.toNames[r.nameS] = r.name
+		e.in.sendErrs++
+		e.in.net = append(e.in.net, r)
+		return errFaceDown
 	}
 	if nv := pi.Nonce(); nv == nil {
 		r.flying, r.dup = false, true
